@@ -136,9 +136,21 @@ impl Grid {
         // related axes: y is x with another pitch, sharing its first node (square arrays with a different physical
         // pitch per axis), or the very same axis
         if nx == ny && !default_axes && src.chance(1, 6) {
-            let f = src.pick(&[1.0, 0.5, 2.0, 0.25]);
-            y = x.iter().map(|v| T::of(x[0] + (v - x[0]) * f).f()).collect();
-            if !y.windows(2).all(|w| w[0] < w[1]) {
+            let f = src.pick(&[1.0, 0.5, 2.0, 0.25, 0.0, 0.0]);
+            if f == 0.0 {
+                // y = every second element of the allocation whose first nx elements are x (the two axes can then be
+                // views that start at the same element with the same length and different strides)
+                let step = x[nx - 1] - x[nx - 2];
+                let mut ext = x.clone();
+                while ext.len() < 2 * nx - 1 {
+                    let l = *ext.last().unwrap();
+                    ext.push(T::of(l + step * (1.0 + src.unit())).f());
+                }
+                y = (0..nx).map(|i| ext[2 * i]).collect();
+            } else {
+                y = x.iter().map(|v| T::of(x[0] + (v - x[0]) * f).f()).collect();
+            }
+            if !y.windows(2).all(|w| w[0] < w[1]) || !y.iter().all(|v| v.is_finite()) {
                 y = x.clone();
             }
             // y is now an explicit axis whatever its class was
@@ -181,6 +193,28 @@ impl Grid {
         let (xlay, ylay) = (crate::layout::pick_lay(src), crate::layout::pick_lay(src));
         Grid { nx, ny, x, y, cx, cy, trailing, lanes, data, dd, lay, xlay, ylay }
     }
+    /// Some(allocation) when both axes are explicit, equally long, different, and y[i] == x[2i] wherever 2i < n
+    pub fn alias_buffer(&self) -> Option<Vec<f64>> {
+        let n = self.nx;
+        if self.cx == AxisClass::Index || self.cy == AxisClass::Index || self.ny != n || n < 2 || self.x == self.y {
+            return None;
+        }
+        if !(0..n).all(|i| 2 * i >= n || self.y[i] == self.x[2 * i]) {
+            return None;
+        }
+        let mut buf = vec![0.0; 2 * n - 1];
+        buf[..n].copy_from_slice(&self.x);
+        for i in 0..n {
+            if 2 * i >= n {
+                buf[2 * i] = self.y[i];
+            }
+        }
+        // odd positions behind x: anything (never read through either view)
+        for k in (n..2 * n - 1).filter(|k| k % 2 == 1) {
+            buf[k] = -1.0;
+        }
+        Some(buf)
+    }
     pub fn shape(&self) -> Vec<usize> {
         let mut s = vec![self.nx, self.ny];
         s.extend_from_slice(&self.trailing);
@@ -192,6 +226,16 @@ impl Grid {
     pub fn build<T: Flt>(&self, extrapolate: bool) -> Result<Box<dyn I2<T>>, Fail> {
         let xo = if self.cx == AxisClass::Index { None } else { Some(crate::layout::realise1(arr_1::<T>(&self.x), self.xlay, T::of(-9.0e9))) };
         let yo = if self.cy == AxisClass::Index { None } else { Some(crate::layout::realise1(arr_1::<T>(&self.y), self.ylay, T::of(-9.0e9))) };
+        // axes that can share one allocation (y[i] == x[2i]) are handed over as two shared arrays that start at the same
+        // element with the same length and different strides
+        if let Some(buf) = self.alias_buffer() {
+            let (xa, ya) = aliasing_pair::<T>(buf.iter().map(|&v| T::of(v)).collect(), self.nx);
+            return match build2_any::<T, ndarray::OwnedArcRepr<T>>(Some(xa), Some(ya), crate::layout::realise(arr_d::<T>(&self.shape(), &self.data), self.lay, T::of(-3.5e5)), self.dd, extrapolate) {
+                Some(Ok(i)) => Ok(i),
+                Some(Err(e)) => Err(Fail::new("build-failed", format!("valid grid (axes = two aliasing views of one allocation) rejected: {e}"))),
+                None => Err(Fail::new("oracle-bug", "grid not expressible")),
+            };
+        }
         // 1 of 10 explicit grids goes through `new_unchecked` (a function of the content)
         let h = self.data.iter().take(3).fold(self.nx as u64, |h, v| crate::common::splitmix(h ^ v.to_bits()));
         if xo.is_some() && yo.is_some() && h % 10 == 0 {
@@ -213,6 +257,9 @@ impl Grid {
         obs.class(if self.cx == AxisClass::Index && self.cy == AxisClass::Index { "axes:default" } else { "axes:explicit" });
         obs.class(format!("ddim:{}", self.dd.name()));
         obs.class(format!("rank:{}", 2 + self.trailing.len()));
+        if self.alias_buffer().is_some() {
+            obs.class("axes:aliasing-views");
+        }
         if self.lanes >= 32 {
             obs.class("lanes:32+");
         }
